@@ -50,6 +50,8 @@ RConcatLit(f, lit, i) ==
   /\ Expressible(f, lit) /\ f \in {"str", "strsep", "list", "tuple", "boollist"}
   /\ IF Accepts(f, lit) THEN LET r == lit \o heap[i] IN heap' = Append(heap, r) /\ last' = Ok("rconcatlit", <<i, f, lit>>, r)
                         ELSE heap' = heap /\ last' = Err("rconcatlit", <<i, f, lit>>)
+\* a 2-D (or 0-D array) operand is never a binary sequence, whatever its elements: a + [[..],[..]] and [[..],[..]] + a are rejected
+Concat2D(i, lit, left) == heap' = heap /\ last' = Err(IF left THEN "rconcat2d" ELSE "concat2d", <<i, lit>>)
 Invert(i) == LET r == Inv(heap[i]) IN heap' = Append(heap, r) /\ last' = Ok("invert", <<i>>, r)
 Slice(i, a, b, s) == LET r == SliceSeq(heap[i], a, b, s) IN
                      heap' = Append(heap, r) /\ last' = Ok("slice", <<i, a, b, s>>, r)
@@ -67,6 +69,7 @@ Next ==
      \/ \E lit \in Lits(2) : Ctor2D(lit)
      \/ \E i, j \in 1..Len(heap) : Concat(i, j)
      \/ \E i \in 1..Len(heap), f \in Forms, lit \in Lits(MaxLit) : ConcatLit(i, f, lit) \/ RConcatLit(f, lit, i)
+     \/ \E i \in 1..Len(heap), lit \in Lits(2), left \in BOOLEAN : Concat2D(i, lit, left)
      \/ \E i \in 1..Len(heap) : Invert(i)
      \/ \E i \in 1..Len(heap), a \in OptInts, b \in OptInts, s \in Steps : Slice(i, a, b, s)
      \/ \E i \in 1..Len(heap), k \in -3..2 : Index(i, k)
